@@ -237,6 +237,10 @@ def trusted_scan(b):
     for p in b.pieces:
         if p.kind == "trait_fn" and not p.has_body and p.fnspec is not None and p.fnspec.clauses:
             items.append("assumed trait contract " + p.fnpath)
+        if p.fnspec is not None:
+            for c in p.fnspec.clauses:
+                if c.kind == "summary":
+                    items.append("assumed summary of an interior-mutable effect: %s" % c.full_id)
     seen = []
     for x in items:
         if x not in seen:
